@@ -201,11 +201,13 @@ type c21Viol struct {
 	detail map[string]any
 }
 
+type c21OC struct{ class, oc string }
+
 type c21Worker struct {
 	evals, replies, nontrivial, violating int64
 	fam                                   map[string]int64
 	famCur                                string
-	outcome                               map[string]int64 // class -> outcome counts
+	outcome                               map[c21OC]int64 // (class, outcome) counts; joined as "class/outcome" in the evidence
 	viol                                  map[string]*c21Viol
 	samples                               map[string][]any
 	buf                                   []byte
@@ -295,9 +297,12 @@ func (w *c21Worker) checkOne(pkt []byte, in *c21In, capOut int) {
 		out = w.buf[:capOut:capOut]
 	}
 	reply, panicked := c21Call(pkt, out)
-	v := fmt.Sprintf("v%d", in.ver)
-	if in.ver == 0 {
-		v = "v?"
+	v := "v?"
+	switch in.ver {
+	case 4:
+		v = "v4"
+	case 6:
+		v = "v6"
 	}
 	if panicked != nil {
 		w.report(v+": CreateRejectPacket panics", pkt, capOut, nil, fmt.Sprint(panicked))
@@ -316,7 +321,7 @@ func (w *c21Worker) checkOne(pkt []byte, in *c21In, capOut int) {
 		if in.need > 0 && capOut < in.need {
 			oc = "nil-small-buffer"
 		}
-		w.outcome[in.class+"/"+oc]++
+		w.outcome[c21OC{in.class, oc}]++
 		return
 	}
 	w.replies++
@@ -394,7 +399,7 @@ func (w *c21Worker) checkOne(pkt []byte, in *c21In, capOut int) {
 		pseudo += uint32(l4proto) + uint32(len(l4))
 	}
 	if in.badIHL {
-		w.outcome[in.class+"/reply"]++
+		w.outcome[c21OC{in.class, "reply"}]++
 		return
 	}
 
@@ -431,19 +436,19 @@ func (w *c21Worker) checkOne(pkt []byte, in *c21In, capOut int) {
 			if fl&0x10 != 0 || rseq != oack {
 				bad("reset for an ACK segment: seq must be the original ack number, ACK flag clear")
 			}
-			w.outcome["rst/for-ack"]++
+			w.outcome[c21OC{"rst", "for-ack"}]++
 		} else {
 			// nf_reject: ack_seq = seq + syn + fin + segment length - data offset, ACK flag set, seq 0
 			want := oseq + uint32(ot[13]>>1&1) + uint32(ot[13]&1) + uint32(len(ot)) - uint32(ot[12]>>4)*4
 			if fl&0x10 == 0 || rack != want || rseq != 0 {
 				bad("reset for a non-ACK segment: ack must be seq+syn+fin+payload length with the ACK flag set and seq 0")
 			}
-			w.outcome["rst/for-non-ack"]++
+			w.outcome[c21OC{"rst", "for-non-ack"}]++
 		}
 		if c21Sum(pseudo, l4) != 0 {
 			bad("TCP checksum invalid")
 		}
-		w.outcome[in.class+"/reset"]++
+		w.outcome[c21OC{in.class, "reset"}]++
 	} else {
 		wantProto, wantType, wantCode, origHdr := uint8(1), uint8(3), uint8(13), in.ihl
 		init := uint32(0)
@@ -476,10 +481,10 @@ func (w *c21Worker) checkOne(pkt []byte, in *c21In, capOut int) {
 		} else if in.ver == 6 && len(body) < min(len(pkt), origHdr) {
 			bad("ICMPv6 body does not carry the original header")
 		}
-		w.outcome[in.class+"/icmp"]++
+		w.outcome[c21OC{in.class, "icmp"}]++
 	}
 	if capOut == in.need {
-		w.outcome["reply-at-exact-capacity"]++
+		w.outcome[c21OC{"reply-at-exact-capacity", ""}]++
 	}
 	if len(w.samples[in.class]) < 2 {
 		w.samples[in.class] = append(w.samples[in.class], map[string]any{"class": in.class, "family": w.famCur, "packet_hex": hex.EncodeToString(pkt[:min(len(pkt), 120)]),
@@ -498,7 +503,7 @@ func c21RunJobs(c *mc.Check, seen *c21Bitmap, jobs []c21Job) (ws []*c21Worker, c
 	var next, skipped atomic.Int64
 	var wg sync.WaitGroup
 	for i := range workers {
-		w := &c21Worker{fam: map[string]int64{}, outcome: map[string]int64{}, viol: map[string]*c21Viol{}, samples: map[string][]any{}, buf: make([]byte, 2048), seen: seen}
+		w := &c21Worker{fam: map[string]int64{}, outcome: map[c21OC]int64{}, viol: map[string]*c21Viol{}, samples: map[string][]any{}, buf: make([]byte, 2048), seen: seen}
 		for j := range w.buf {
 			w.buf[j] = 0xa5
 		}
@@ -605,6 +610,13 @@ func c21ICMP(typ, code uint8, payload int) []byte {
 	return b
 }
 
+var c21Fd = func() (b [256]byte) {
+	for i := range b {
+		b[i] = 0xfd
+	}
+	return
+}()
+
 type c21Sym struct {
 	name string
 	nh   uint8
@@ -660,8 +672,7 @@ func c21BuildV6(chain []uint8, lenMode int, upperNH uint8, upper []byte) []byte 
 			p[6] = c21Syms[s].nh
 		}
 		h := p[off : off+sizes[i]]
-		for j := range h {
-			h[j] = 0xfd
+		for j := 0; j < len(h); j += copy(h[j:], c21Fd[:]) {
 		}
 		h[0], h[1] = next, byte(decl[i])
 		if c21Syms[s].nh == 44 {
@@ -980,7 +991,11 @@ func TestVerifC21(t *testing.T) {
 			fam[k] += v
 		}
 		for k, v := range w.outcome {
-			outcome[k] += v
+			if k.oc == "" {
+				outcome[k.class] += v
+			} else {
+				outcome[k.class+"/"+k.oc] += v
+			}
 		}
 		for k, v := range w.samples {
 			samples[k] = append(samples[k], v...)
